@@ -11,6 +11,7 @@ import math
 
 from mc import alpha
 from mc.env import guard
+from mc.state import seq
 from mc import pasts
 from tracklib.core.track import Track
 from tracklib.core.obs import Obs
@@ -44,6 +45,7 @@ PASTS = ["copied", "extracted", "sliced", "span", "featured-then-removed", "rebu
 ORDERS = {"abs-first": ["abs", "abs", "speed", "speed"], "speed-first": ["speed", "abs", "abs", "speed"]}
 
 OBLIGATIONS = {
+    "timestamps_declared_in_another_time_zone": "the features were computed on a track whose timestamps all carry a non-zero time zone (Track.setTimeZone)",
     "track_with_a_past": "the features were computed on a track that had been copied, extracted, sliced, rebuilt from featured observations or concatenated first",
     "repeated_fix_made_by_copy": "a repeated position whose second fix is Obs.copy() of the first (with its own timestamp)",
     "long_track": "a track of several hundred fixes (257, 258, 300, ...) cycling through the lattice",
@@ -109,9 +111,9 @@ def snap(t):
 
 
 def _numlist(v, n):
-    if not isinstance(v, list) or len(v) != n:
-        raise TypeError("not a list of %d values: %r" % (n, v))
-    return [float(x) for x in v]
+    if seq(v) is None or len(v) != n:
+        raise TypeError("not a sequence of %d values: %r" % (n, v))
+    return [float(x) for x in seq(v)]
 
 
 def close(got, exp):
@@ -168,6 +170,11 @@ def check_track(variant, pts, times, order, ctx, case=None):
     if "/past:" in order:
         order, past = order.split("/past:")
         ctx.oblige("track_with_a_past")
+    zone = None
+    if "/zone:" in order:
+        order, zone = order.split("/zone:")
+        zone = int(zone)
+        ctx.oblige("timestamps_declared_in_another_time_zone")
     copied = order.endswith("/copied-fix")
     if copied:
         order = order[:-len("/copied-fix")]
@@ -187,6 +194,8 @@ def check_track(variant, pts, times, order, ctx, case=None):
             return
     else:
         t = mk_track(variant, pts, times, flat_z, copied)
+    if zone is not None:
+        t.setTimeZone(zone)           # every timestamp declared in the same zone: the elapsed times are what they were
     before = snap(t)
     seenS, seenV = None, None
     for step, what in enumerate(ORDERS[order]):
@@ -338,6 +347,9 @@ def run_shard(shard, ctx):
                 check_track(v, pts, times, order, ctx)
                 if any(pts[i] == pts[i + 1] for i in range(n - 1)):
                     check_track(v, pts, times, order + "/copied-fix", ctx)
+                if n <= 3 and not shard["extended"]:      # the same track with its timestamps declared in another time zone
+                    for z in (2, -5):
+                        check_track(v, pts, times, order + "/zone:%d" % z, ctx)
                 if n == 3 and not shard["extended"]:      # the same track after a past in another part of the library
                     for past in PASTS:
                         check_track(v, pts, times, order + "/past:" + past, ctx)
